@@ -166,13 +166,30 @@ func (s State) predOf(fr *Frame, blk int) (int, bool) {
 type cellList struct {
 	fr   *Frame
 	a    *ssa.Alloc
+	fld  int // -1: the cell itself; otherwise the field of a struct allocated on the path (parameter object)
+	ep   int // field cells: write epoch of the field right after the store (a later possible write makes the cell stale)
 	val  Ref
 	next *cellList
 }
 
 func (s State) cell(fr *Frame, a *ssa.Alloc) (Ref, bool) {
 	for c := s.cells; c != nil; c = c.next {
-		if c.fr == fr && c.a == a {
+		if c.fr == fr && c.a == a && c.fld < 0 {
+			return c.val, true
+		}
+	}
+	return Ref{}, false
+}
+
+// fieldCell: the value last stored on the path into field fld of the struct
+// allocated by a in frame fr (a request's parameters grouped into an object
+// that is handed from phase to phase).
+func (s State) fieldCell(fr *Frame, a *ssa.Alloc, fld int, fv *types.Var, initOnly bool) (Ref, bool) {
+	for c := s.cells; c != nil; c = c.next {
+		if c.fr == fr && c.a == a && c.fld == fld {
+			if fv != nil && !initOnly && s.epoch(fv) != c.ep {
+				return Ref{}, false
+			}
 			return c.val, true
 		}
 	}
@@ -294,6 +311,7 @@ type Tracer struct {
 	cur      State // state at the instruction being classified (for path-sensitive Resolve)
 	cellMemo map[ssa.Value]*cellInfo
 	interest map[*ssa.Function]int // 0 unknown, 1 yes, 2 no
+	slots    map[*types.Var]string // pending-slot fields: never resolved through field cells
 }
 
 type cellInfo struct {
@@ -429,7 +447,18 @@ func (t *Tracer) execBlock(fr *Frame, b *ssa.BasicBlock, idx int, st State, k fu
 				t.cur = st
 				if cr := t.Resolve(fr, sx.Addr); cr.V != nil {
 					if al, ok := cr.V.(*ssa.Alloc); ok {
-						st.cells = &cellList{fr: cr.Fr, a: al, val: t.Resolve(fr, sx.Val), next: st.cells}
+						st.cells = &cellList{fr: cr.Fr, a: al, fld: -1, val: t.Resolve(fr, sx.Val), next: st.cells}
+					}
+				}
+				if fa, ok := sx.Addr.(*ssa.FieldAddr); ok {
+					if base := t.Resolve(fr, fa.X); base.V != nil {
+						if al, ok := base.V.(*ssa.Alloc); ok {
+							ep := 0
+							if fv := fieldOfAddr(fa); fv != nil {
+								ep = st.epoch(fv)
+							}
+							st.cells = &cellList{fr: base.Fr, a: al, fld: fa.Field, ep: ep, val: t.Resolve(fr, sx.Val), next: st.cells}
+						}
 					}
 				}
 			}
@@ -719,7 +748,11 @@ func (t *Tracer) condKey(fr *Frame, c ssa.Value, st State) (key string, neg bool
 func (t *Tracer) valKey(fr *Frame, v ssa.Value, st State) string {
 	r := t.Resolve(fr, v)
 	if f, base := fieldLoad(r.V); f != nil {
-		return fmt.Sprintf("fld(%s.%s#%d)", t.valKey(r.Fr, base, st), f.Name(), st.epoch(f))
+		ep := st.epoch(f)
+		if t.P.initOnlyField(f) {
+			ep = 0 // written only while its object is under construction: no later write can reach an existing object
+		}
+		return fmt.Sprintf("fld(%s.%s#%d)", t.valKey(r.Fr, base, st), f.Name(), ep)
 	}
 	// a load of a captured variable whose closure is analysed on its own
 	if u, ok := r.V.(*ssa.UnOp); ok && u.Op == token.MUL {
@@ -793,6 +826,28 @@ func (t *Tracer) Resolve(fr *Frame, v ssa.Value) Ref {
 			continue
 		case *ssa.UnOp:
 			if x.Op == token.MUL {
+				if fa, isFA := x.X.(*ssa.FieldAddr); isFA {
+					// field of an object allocated on this path: the value last stored there on the path
+					// (not for pending slots: what is parked there is consumed by the store, and the later call
+					// through the slot is the drain)
+					if t.slots == nil {
+						t.slots = t.P.slotSet()
+					}
+					if _, isSlot := t.slots[fieldOfAddr(fa)]; isSlot {
+						return Ref{fr, v}
+					}
+					if base := t.Resolve(fr, fa.X); base.V != nil {
+						if al, ok := base.V.(*ssa.Alloc); ok {
+							if cv, ok := t.cur.fieldCell(base.Fr, al, fa.Field, fieldOfAddr(fa), t.P.initOnlyField(fieldOfAddr(fa))); ok && cv.V != nil {
+								if cu, self := cv.V.(*ssa.UnOp); !self || cu != x {
+									fr, v = cv.Fr, cv.V
+									continue
+								}
+							}
+						}
+					}
+					return Ref{fr, v}
+				}
 				cell := t.Resolve(fr, x.X)
 				if a, ok := cell.V.(*ssa.Alloc); ok {
 					if cv, ok := t.cur.cell(cell.Fr, a); ok && cv.V != nil {
@@ -1077,7 +1132,7 @@ func (t *Tracer) inline(fr *Frame, c ssa.CallInstruction, f *ssa.Function) bool 
 			return true
 		}
 		top := TopLevel(t.Root)
-		if f.Pkg != nil && top.Pkg != nil && f.Pkg == top.Pkg && f.Object() != nil && (!f.Object().Exported() || isSmallPredicate(f)) && fr.Depth < 5 {
+		if f.Pkg != nil && top.Pkg != nil && f.Pkg == top.Pkg && f.Object() != nil && (!f.Object().Exported() || isSmallPredicate(f)) && fr.Depth < 8 {
 			if t.Spec.Branch != nil && (isParamPredicate(f) || isParamDecision(f)) {
 				return true // what it decides is a fact about the caller's arguments; cheap
 			}
@@ -1275,6 +1330,62 @@ func (t *Tracer) foldIntD(fr *Frame, v ssa.Value, depth int) (int64, bool) {
 	return 0, false
 }
 
+// initOnlyField: every store to the field, anywhere in the program, writes an
+// object that the storing function has just allocated itself (a composite
+// literal or the lines right after `new`): a write some callee may do is a
+// write to another, fresh object, never to one that already exists.
+func (p *Prog) initOnlyField(f *types.Var) bool {
+	if f == nil {
+		return false
+	}
+	if p.initOnly == nil {
+		p.initOnly = map[*types.Var]bool{}
+	}
+	if v, ok := p.initOnly[f]; ok {
+		return v
+	}
+	res := len(p.stores[f]) > 0
+	for _, st := range p.stores[f] {
+		fa, ok := st.Addr.(*ssa.FieldAddr)
+		if !ok {
+			res = false
+			break
+		}
+		al, ok := fa.X.(*ssa.Alloc)
+		if !ok || al.Parent() != st.Parent() {
+			res = false
+			break
+		}
+	}
+	p.initOnly[f] = res
+	return res
+}
+
+// StoresIntoPathObject reports that the store writes a field of a struct that
+// was allocated on this very path (a parameter object built by the function
+// under analysis): the engine keeps the value as a field cell and a later load
+// of that field through the same object resolves to it again.
+func (t *Tracer) StoresIntoPathObject(fr *Frame, st *ssa.Store) bool {
+	fa, ok := st.Addr.(*ssa.FieldAddr)
+	if !ok {
+		return false
+	}
+	base := t.Resolve(fr, fa.X)
+	al, ok := base.V.(*ssa.Alloc)
+	if !ok {
+		return false
+	}
+	// the object's own type is a struct of the repository
+	pt, ok := al.Type().Underlying().(*types.Pointer)
+	if !ok {
+		return false
+	}
+	if _, isStruct := pt.Elem().Underlying().(*types.Struct); !isStruct {
+		return false
+	}
+	return true
+}
+
 // withRet records the (single) value an inlined call returned on this path.
 func (t *Tracer) withRet(st State, fr *Frame, c ssa.CallInstruction, rets []Ref) State {
 	v, ok := c.(ssa.Value)
@@ -1327,6 +1438,19 @@ func (t *Tracer) interesting(f *ssa.Function, depth int) (res bool) {
 						v = u.X
 					}
 					switch y := v.(type) {
+					case *ssa.FieldAddr:
+						// a function value kept in a field of an object the helper was handed (`hc.cb(…)` with hc a
+						// parameter object built by the caller): what it is, the caller's path knows
+						switch b := y.X.(type) {
+						case *ssa.Parameter:
+							return true
+						case *ssa.FreeVar:
+							return true
+						case *ssa.UnOp:
+							if _, isFV := b.X.(*ssa.FreeVar); isFV && b.Op == token.MUL {
+								return true
+							}
+						}
 					case *ssa.Parameter:
 						if y.Parent() == f {
 							return true
